@@ -288,7 +288,9 @@ class FormulaTransformer(m.MatcherDecoratableTransformer):
             # Do nothing if node is an attribute of another name
             return updated_node
         elif self.should_replace(original_node):
-            return cst.Attribute(value=cst.Name('self'), attr=updated_node)
+            # parentheses written around the name go around the whole attribute
+            return cst.Attribute(value=cst.Name('self'), attr=updated_node.with_changes(lpar=(), rpar=()),
+                                 lpar=updated_node.lpar, rpar=updated_node.rpar)
         else:
             return updated_node
 
